@@ -14,6 +14,8 @@ import traceback
 from . import build as vbuild
 
 VERIF = vbuild.VERIF
+# evidence/ and replay/ under /verif describe /repo only; a run against another tree (VF_REPO: seeded changes, mutants) writes to its build root
+OUTROOT = VERIF if vbuild.REPO == "/repo" else os.path.join(vbuild.BUILD, "out-" + hashlib.sha1(vbuild.REPO.encode()).hexdigest()[:8])
 NPROC = int(os.environ.get("VF_JOBS", "16"))
 SCRATCH = os.path.join(vbuild.BUILD, "run")
 
@@ -302,7 +304,7 @@ class Check:
                 seen_known.setdefault(v["key"], v)
             else:
                 new.setdefault(v["key"], v)
-        rdir = os.path.join(VERIF, "replay", self.pid)
+        rdir = os.path.join(OUTROOT, "replay", self.pid)
         lines = []
         for key, v in new.items():
             os.makedirs(rdir, exist_ok=True)
@@ -335,8 +337,8 @@ class Check:
             "coverage": cov, "assumptions": self.assumptions, "wall_s": round(time.time() - self.t0, 2),
             "violations": len(new),
         }
-        os.makedirs(os.path.join(VERIF, "evidence"), exist_ok=True)
-        with open(os.path.join(VERIF, "evidence", self.pid + ".json"), "w") as f:
+        os.makedirs(os.path.join(OUTROOT, "evidence"), exist_ok=True)
+        with open(os.path.join(OUTROOT, "evidence", self.pid + ".json"), "w") as f:
             json.dump(ev, f, indent=1, default=str)
         print("%s %s seed=%d: %d evaluations, %d distinct non-trivial, %d new violation key(s), %d known; %.1fs" % (
             self.pid, self.tier, self.seed, m.evaluations, len(m.distinct), len(new), len(seen_known), time.time() - self.t0))
@@ -420,7 +422,7 @@ def run_fuzz(exe, pid, runs, seed, jobs=16, max_len=256, dict_path=None, timeout
                 c = Crash("fuzz", r.returncode, txt, os.path.basename(art).split("-")[0])
                 kind, frame = c.summary()
                 key, what = "%s/fuzz/%s/%s" % (pid, kind, frame), "libFuzzer artifact %s: %s" % (os.path.basename(art), kind)
-            rdir = os.path.join(VERIF, "replay", pid)
+            rdir = os.path.join(OUTROOT, "replay", pid)
             os.makedirs(rdir, exist_ok=True)
             keep = os.path.join(rdir, "fuzz-" + os.path.basename(art))
             shutil.copy(art, keep)
